@@ -16,6 +16,7 @@ directive lines starting with `//@`:
   //@       before#N / after#N / after_stmt#N address the N-th occurrence of a repeated anchor
   //@   after_stmt <anchor>       (after the `;` ending the statement that starts at anchor)
   //@   rewrite <old> ==> <new>
+  //@   rename <ident> <new ident>   (alpha-renaming, for identifiers that are Verus keywords)
   //@   replace_range <start anchor> ... <stop anchor> ==> <new>   (both anchors inclusive)
   //@   tail <name> <anchor>      block-tail expression E starting at anchor -> `let name = E; <text> name`
   //@   body_start
@@ -107,6 +108,9 @@ def build(template_path, out_path, canary=False, repo=None, mutate=None):
                         elif op == "tail":
                             nm, _, anc = arg.partition(" ")
                             cur = {"op": "tail", "name": nm, "anchor": anc.strip(), "text": ""}
+                        elif op == "rename":
+                            o, _, n = arg.partition(" ")
+                            cur = {"op": "rename", "old": o.strip(), "new": n.strip(), "text": ""}
                         elif op == "replace_range":
                             rng, _, new = arg.partition(" ==> ")
                             a, _, b = rng.partition(" ... ")
